@@ -9,6 +9,55 @@ Open Scope Z_scope.
 
 Ltac ostep := cbn [obind]; cbv beta iota.
 
+(* ---- generic facts about the jump target of a switch ---- *)
+Section TargetFacts.
+Context {A B : Type}.
+Variable F : A -> B.
+Local Notation mapF := (map (fun it : slabel * A => match it with (l, s) => (l, F s) end)).
+Lemma find_case_ext (f h : Z -> bool) (l : list (slabel * A)) :
+  (forall z, f z = h z) -> find_case f l = find_case h l.
+Proof.
+  intros E. induction l as [|[lb s] r IH]; [reflexivity|]. cbn [find_case]. destruct lb; try exact IH.
+  rewrite E, IH. reflexivity.
+Qed.
+Lemma find_case_map eqv (l : list (slabel * A)) :
+  find_case eqv (mapF l) = option_map mapF (find_case eqv l).
+Proof.
+  induction l as [|[lb s] r IH]; [reflexivity|]. cbn [map find_case]. destruct lb; try exact IH.
+  destruct (eqv z); [reflexivity|exact IH].
+Qed.
+Lemma find_default_map (l : list (slabel * A)) :
+  find_default (mapF l) = option_map mapF (find_default l).
+Proof. induction l as [|[lb s] r IH]; [reflexivity|]. cbn [map find_default]. destruct lb; try exact IH. reflexivity. Qed.
+Lemma switch_target_map eqv (l : list (slabel * A)) :
+  switch_target eqv (mapF l) = option_map mapF (switch_target eqv l).
+Proof.
+  unfold switch_target. rewrite find_case_map. destruct (find_case eqv l); [reflexivity|apply find_default_map].
+Qed.
+Lemma find_case_suffix eqv (P : slabel * A -> bool) (l r : list (slabel * A)) :
+  find_case eqv l = Some r -> forallb P l = true -> forallb P r = true.
+Proof.
+  induction l as [|[lb s] t IH]; [discriminate|]. cbn [find_case forallb]. intros H Q.
+  apply andb_prop in Q as [Q1 Q2].
+  destruct lb; try (apply IH; assumption).
+  destruct (eqv z); [injection H as <-; cbn [forallb]; now rewrite Q1, Q2|apply IH; assumption].
+Qed.
+Lemma find_default_suffix (P : slabel * A -> bool) (l r : list (slabel * A)) :
+  find_default l = Some r -> forallb P l = true -> forallb P r = true.
+Proof.
+  induction l as [|[lb s] t IH]; [discriminate|]. cbn [find_default forallb]. intros H Q.
+  apply andb_prop in Q as [Q1 Q2].
+  destruct lb; try (apply IH; assumption). injection H as <-. cbn [forallb]. now rewrite Q1, Q2.
+Qed.
+Lemma switch_target_suffix eqv (P : slabel * A -> bool) (l r : list (slabel * A)) :
+  switch_target eqv l = Some r -> forallb P l = true -> forallb P r = true.
+Proof.
+  unfold switch_target. destruct (find_case eqv l) eqn:E.
+  - intros [= <-]. now apply (find_case_suffix eqv P l).
+  - apply find_default_suffix.
+Qed.
+End TargetFacts.
+
 Section Stmt.
 Variable k : cfg.
 Variable g : cgen.
@@ -42,6 +91,25 @@ Proof.
   exact (proj2 (ceval_ok g Hwf te e st v st' EV SO)).
 Qed.
 
+(* the promoted controlling expression of a switch *)
+Lemma e_prom e st v st' : store_ok dm te st -> agrees sv dm te e = true ->
+  agree_p sv dm (xtype_of dm te e) = true -> ceval dm te st e = Some (v, st') ->
+  xrun k (lower g (promote_m sv (elab sv te e))) st = ODone (convert dm (promote dm (xtype_of dm te e)) v, st') /\
+  store_ok dm te st' /\ ttyp (promote_m sv (elab sv te e)) = promote dm (xtype_of dm te e).
+Proof.
+  intros SO A P EV. pose proof (expr_typing g te sv e A) as T.
+  destruct (ceval_ok g Hwf te e st v st' EV SO) as [Rv S1].
+  unfold promote_m. rewrite T. unfold agree_p, pp_v in P. apply ity_eqb_true in P.
+  destruct (mem_ty (xtype_of dm te e) promotable_types).
+  - rewrite P. split; [exact (fn_value k g Hwf Hf te sv _ e st v st' SO A EV)|].
+    split; [assumption|apply ttyp_coerce].
+  - rewrite <- P. split; [|split; [assumption|exact T]].
+    rewrite (cid g Hwf _ _ Rv). exact (expr_value k g Hwf Hf te sv e st v st' SO A EV).
+Qed.
+
+Lemma case_val_ok t z : case_val k (irty g t) z = convert dm t z.
+Proof. unfold case_val. now rewrite (wrap_ty_ok k g Hwf Hf). Qed.
+
 Definition Sim (f : nat) : Prop := forall s st o st',
   store_ok dm te st -> agrees_stmt sv dm te s = true ->
   Ex f st s = Some (o, st') ->
@@ -68,6 +136,34 @@ Proof.
     + destruct (ceval dm te s2 post) as [[vp s3]|] eqn:Ep; [|discriminate].
       destruct (e_val post s2 vp s3 S2 Ap Ep) as [Rp S3]. rewrite Rp. ostep.
       exact (IHn s3 o st' S3 EV).
+Qed.
+
+Lemma find_target_ext_helper {A} (pv : Z) (t : ity) (l : list (slabel * A))
+  (E : forall z, case_val k (irty g t) z = convert dm t z) :
+  switch_target (fun z => pv =? case_val k (irty g t) z) l = switch_target (fun z => pv =? convert dm t z) l.
+Proof.
+  unfold switch_target. rewrite (find_case_ext (fun z => pv =? case_val k (irty g t) z) (fun z => pv =? convert dm t z) l).
+  - reflexivity.
+  - intros z. now rewrite E.
+Qed.
+
+(* the items of a switch body from the jump target on *)
+Lemma items_sim f (IH : Sim f) : forall rest st o st', store_ok dm te st ->
+  forallb (fun it : slabel * cstmt => match it with (_, s) => agrees_stmt sv dm te s end) rest = true ->
+  run_items (Ex f) rest st = Some (o, st') ->
+  run_items_i (srun k f)
+              (map (fun it : slabel * tstmt => match it with (l, s) => (l, lower_stmt g s) end)
+                   (map (fun it : slabel * cstmt => match it with (l, s) => (l, elab_stmt sv te rt s) end) rest)) st
+  = ODone (o, st')
+  /\ store_ok dm te st'.
+Proof.
+  induction rest as [|[lb s] r IHr]; intros st o st' SO A EV.
+  - injection EV as <- <-. now split.
+  - cbn [forallb] in A. apply andb_prop in A as [As Ar]. cbn [run_items] in EV. cbn [map run_items_i].
+    destruct (Ex f st s) as [[os s1]|] eqn:Es; [|discriminate].
+    destruct (IH s st os s1 SO As Es) as [Rs S1]. rewrite Rs. ostep.
+    destruct os; try (injection EV as <- <-; now split).
+    exact (IHr s1 o st' S1 Ar EV).
 Qed.
 
 Theorem stmt_sim : forall f, Sim f.
@@ -136,6 +232,19 @@ Proof.
   - (* return *)
     destruct (ceval dm te st e) as [[v s1]|] eqn:E; [|discriminate]. injection EV as <- <-.
     destruct (e_conv rt e st v s1 SO A E) as [R S1]. rewrite R. ostep. now split.
+  - (* switch *)
+    apply andb_prop in A as [A Ai]. apply andb_prop in A as [Ae Ap].
+    destruct (ceval dm te st e) as [[v s1]|] eqn:E; [|discriminate].
+    destruct (e_prom e st v s1 SO Ae Ap E) as (R & S1 & T). rewrite R. ostep. rewrite T.
+    rewrite (switch_target_map (lower_stmt g)), (switch_target_map (elab_stmt sv te rt)).
+    rewrite (find_target_ext_helper _ _ _ (fun z => case_val_ok (promote dm (xtype_of dm te e)) z)).
+    destruct (switch_target (fun z => convert dm (promote dm (xtype_of dm te e)) v =?
+                                      convert dm (promote dm (xtype_of dm te e)) z) items) as [rest|] eqn:Tg;
+      cbn [option_map].
+    + destruct (run_items (Ex f) rest s1) as [[ob s2]|] eqn:Er; [|discriminate]. injection EV as <- <-.
+      pose proof (switch_target_suffix _ _ _ _ Tg Ai) as Ar.
+      destruct (items_sim f IH rest s1 ob s2 S1 Ar Er) as [Rr S2]. rewrite Rr. ostep. now split.
+    + injection EV as <- <-. now split.
 Qed.
 
 (* a whole function body: the value returned *)
@@ -145,7 +254,7 @@ Theorem fn_stmt_exact np fuel args body v :
   '(o, _) <~ srun k fuel (L body) (args ++ repeat 0 (List.length te - np)) ;;
   match o with SRet r => ODone r | _ => OStuck end = ODone v.
 Proof.
-  intros SO A R. unfold run_fn in R. destruct (scoped false (seq 0 np) body); [|discriminate].
+  intros SO A R. unfold run_fn in R. destruct (scoped false false (seq 0 np) body); [|discriminate].
   destruct (Ex fuel (args ++ repeat 0 (List.length te - np)) body) as [[o s1]|] eqn:E; [|discriminate].
   destruct o; try discriminate. injection R as <-.
   destruct (stmt_sim fuel body _ _ _ SO A E) as [Rn _]. rewrite Rn. reflexivity.
